@@ -2,6 +2,8 @@ package props
 
 import (
 	"fmt"
+	cparsers "github.com/pip-services3-gox/pip-services3-expressions-gox/calculator/parsers"
+	"github.com/pip-services3-gox/pip-services3-expressions-gox/variants"
 	"strings"
 	"testing"
 
@@ -135,10 +137,10 @@ func TestC14_Exhaustive(t *testing.T) {
 	rec.DupFree = true
 	defer finish(t, rec)
 	maxLen := pick(5, 6)
-	rec.Bounds = fmt.Sprintf("all strings of length 0..%d over {quote, other quote, a, é, 中, 😀, space, LF} x 5 quote characters (1-, 2- and 3-byte) x 3 states, each as a string to encode (tails: none, 'x', other quote, space) and as raw text to decode", maxLen)
+	rec.Bounds = fmt.Sprintf("all strings of length 0..%d over {quote, other quote, a, é, 中, 😀, space, LF, backslash} x 5 quote characters (1-, 2- and 3-byte) x 3 states, each as a string to encode (tails: none, 'x', other quote, space) and as raw text to decode", maxLen)
 	for qi, q := range c14Quotes {
 		other := c14Quotes[(qi+1)%len(c14Quotes)]
-		alphabet := []string{string(q), string(other), "a", "é", "中", "😀", " ", "\n"}
+		alphabet := []string{string(q), string(other), "a", "é", "中", "😀", " ", "\n", "\\"}
 		tails := []string{"", "x", string(other) + "z", " " + string(q)}
 		qq := q
 		enumStrings(alphabet, maxLen, true, func(parts []string) {
@@ -294,6 +296,20 @@ func checkC14Tok(c c14TokCase) *evid.Fail {
 		for name, strs := range map[string][]string{"TokenizeBufferToStrings": t.TokenizeBufferToStrings(text), "TokenizeStreamToStrings": t.TokenizeStreamToStrings(rio.NewStringScanner(text))} {
 			if fmt.Sprintf("%q", strs) != fmt.Sprintf("%q", vals) && res == nil {
 				res = evid.F("token-stream:tostrings-differs:"+c.Tok, "%s tokenizer with decoding on, text %q: token values %q, %s gives %q", c.Tok, text, vals, name, strs)
+				return
+			}
+		}
+		if c.Tok == "expression" && res == nil {
+			// the same literal through the expression parser (the stream most callers ever put it in): one constant
+			// holding the original string
+			p := cparsers.NewExpressionParser()
+			if perr := p.ParseString(enc); perr != nil {
+				res = evid.F("token-stream:parser-rejects-literal", "the expression parser rejects the literal %q (encodes %q): %v", enc, c.S, perr)
+				return
+			}
+			rt := p.ResultTokens()
+			if len(rt) != 1 || rt[0].Value() == nil || rt[0].Value().Type() != variants.String || rt[0].Value().AsString() != c.S {
+				res = evid.F("token-stream:parser-value", "the expression parser compiles the literal %q to %s, it encodes %q", enc, exprTokensRepr(rt), c.S)
 				return
 			}
 		}
